@@ -60,6 +60,8 @@ CASES = [
     ('static', ['X static z 3'], ('static', 'z', '3'), 'X'),
     ('limited', ['X limited x a'], ('limited', 'x', 'a'), 'X'),
     ('greedy', ['X remove t', 'X greedy o'], ('greedy-last',), 'X'),
+    ('greedy-sized', ['X remove t', 'X remove o', 'X remove z', 'X remove n', 'X remove y', 'X remove y_len', 'X greedy x'], ('greedy-sized',), 'X'),
+    ('greedy-limited', ['X remove t', 'X remove o', 'X remove z', 'X remove n', 'X greedy y'], ('greedy-limited',), 'X'),
     ('rename-field', ['X rename a b'], ('rename', 'a', 'b'), 'X'),
     ('rename-node', ['X rename Y'], None, 'Y'),
     ('absent-target', ['Nope type a u64', 'Nope remove q'], None, 'X'),
@@ -91,6 +93,10 @@ def reference_members(case):
     elif k[0] == 'greedy-last':
         ms = [m for m in ms if m.name != 't']
         ms[-1] = M('o', 'u16', greedy=True)
+    elif k[0] == 'greedy-sized':
+        ms = [M('a', 'u8'), M('x', 'u16', greedy=True)]        # the trailing 'T x[N]' idiom: greedy drops the size
+    elif k[0] == 'greedy-limited':
+        ms = ms[:3] + [M('y', 'u32', greedy=True)]             # greedy drops bound and size; the former counter stays a plain field
     elif k[0] == 'rename':
         ms[0] = M('b', 'u8')
     return ms
